@@ -559,6 +559,8 @@ def thread_difference_explained(cb, k_op, rel, name="condt", extra_imports="", m
     T = int(o["iters"])
     if T < 1 or T > 400:
         return False, "budget outside 1..400"
+    if ((cb.meta or {}).get("stats") or {}).get("nodes", 0) > 800:
+        return False, "game too large for the conditioning probe (the difference is reported as it stands)"
     prefixes = list(range(1, T + 1)) if T <= 40 else sorted(set(list(range(1, 21)) + [int(round(20 + (T - 20) * i / 20.0)) for i in range(1, 21)]))
     params = o["params"]
     if isinstance(params, list):
@@ -639,14 +641,15 @@ def thread_difference_explained(cb, k_op, rel, name="condt", extra_imports="", m
             "solver under another schedule of its atomic updates leaves the single-threaded model at binary64: %s"
             % (o["threads"], t_k, t_jit, t_sched))
     ok = (t_jit is not None and t_jit <= limit) or (t_sched is not None and t_sched <= limit)
-    if not ok and t_k is None and cancel:
-        # the difference does not come back when the k-thread solve is repeated: it depends on the schedule of the
-        # workers.  If in some iteration a cumulative regret is the result of cancellation (|sum| below 1e-10 of the
+    if not ok and cancel:
+        # neither a one-ulp perturbation nor another schedule of the model reproduces the difference (it may not even
+        # come back when the k-thread solve is repeated: it depends on the schedule of the workers).  If in some iteration a cumulative regret is the result of cancellation (|sum| below 1e-10 of the
         # magnitudes added, often exactly 0 in the sequential order), its sign -- on which regret matching branches --
         # is decided by the order of the atomic additions: "up to floating-point summation order".
         t_c = next((k_ + 1 for k_, x in enumerate(cancel) if x <= 1e-10), None)
         info += "; first iteration in which some cumulative regret is a cancelled sum (ratio <= 1e-10): %s" % t_c
-        ok = t_c is not None and t_c <= T
+        # (when the k-thread run leaves the one-thread run reproducibly, the cancellation must not come later than that)
+        ok = t_c is not None and t_c <= limit
     return ok, info
 
 
